@@ -117,8 +117,8 @@ def apply(st, op):
 
 def observe(fs):
     """Observable state of the real set."""
-    names = [f["name"] for f in fs.filters]
-    flags = [bool(f["enabled"]) for f in fs.filters]
+    names = [E.fattr(f, "name") for f in fs.filters]
+    flags = [bool(E.fattr(f, "enabled")) for f in fs.filters]
     return names, flags
 
 
